@@ -63,6 +63,13 @@ def relational(cases, impl):
                     r2, call2 = parse_ok(li)
                     if call2 != call or r2 != r + len(y):
                         fails.append((i, f'appending bytes changed the accepted unit: {lx} vs {li}')); break
+                if li.startswith('ok ') and not lx.startswith('ok '):
+                    r2, _c2 = parse_ok(li)
+                    if r2 >= len(y):
+                        fails.append((i, f'x++y is accepted and the unit ends inside x (rest {r2} >= |y| = {len(y)}), so the verdict is determined by bytes of x, '
+                                         f'yet x alone gives {lx}')); break
+                if lx.startswith('ok '):
+                    pass
                 elif (lx.startswith('soft') or lx.startswith('fatal')) and x.endswith(b'\n'):
                     if li.startswith('ok '):
                         fails.append((i, f'newline-terminated input was rejected ({lx}) but a continuation is accepted ({li})')); break
